@@ -147,6 +147,8 @@ package rle
 // C04: a bit-packed run of any number of groups (the header is an unbounded varint; other
 // writers emit more than 63 groups per run) is decoded group by group without leaving
 // the bytes read for it: no index or slice expression of the decoder can fail.
+// C07/C04: the run decoders ACCEPT a run whose bytes are there (no limit on groups or repeats)
+//@ pred remBytes(r) := cast("*bytes.Reader", r).grem
 //@ pred wholeGroups(n, width) := (width == 1) || (width == 2 && n % 2 == 0) || (width == 3 && n % 3 == 0) || (width == 4 && n % 4 == 0)
 //@ func readRLEBitPacked
 //@   verify[C04]
@@ -161,10 +163,12 @@ package rle
 //@   modifies obj(r), rd
 //@   ensures freshOrNil(res0)
 //@   ensures[C04,C07] err == nil && width >= 1 ==> #res0 == (header / 2) * 8
+//@   ensures[C04,C07] 1 <= width && header / 2 >= 1 && old(remBytes(r)) >= width * (header / 2) ==> err == nil && remBytes(r) == old(remBytes(r)) - width * (header / 2)
 //@   ensures[C10] err == nil ==> (rfault ==> old(rfault))
 //@ loop readRLEBitPacked#1
 //@   invariant freshOrNil(out) && freshsince(rawBytes) && (rfault ==> old(rfault))
 //@   invariant[C04,C07] 1 <= width && width <= 4 && wholeGroups(#rawBytes, width)
+//@   invariant[C04,C07] byteCount == width * (header / 2) && (old(remBytes(r)) >= byteCount ==> remBytes(r) == old(remBytes(r)) - byteCount)
 //@   invariant[C04,C07] #out * width + 8 * #rawBytes == 8 * width * (header / 2)
 // C04/C07: every value decoded so far is the LSB-first field of the bytes read for the run
 // (value e of group g occupies bits [w*e, w*e+w) of the little-endian integer formed by bytes
@@ -192,6 +196,7 @@ package rle
 //@   modifies obj(r), rd
 //@   ensures freshOrNil(res0)
 //@   ensures[C04,C07] err == nil ==> #res0 == header / 2
+//@   ensures[C04,C07] 1 <= bitWidth && bitWidth <= 8 && old(remBytes(r)) >= 1 ==> err == nil && remBytes(r) == old(remBytes(r)) - 1
 // every value of a repeated run is the run's value, whatever the run's length
 //@   ensures[C04,C07] err == nil ==> (forall k in 0..#res0: res0[k] == lastRunVal)
 //@   ensures[C10] err == nil ==> (rfault ==> old(rfault))
@@ -205,10 +210,12 @@ package rle
 //@   modifies obj(in), rd
 //@   ghost-exit lastRunVal := res0
 //@   ensures[C10] err == nil ==> (rfault ==> old(rfault))
+//@   ensures[C04,C07] 1 <= bitWidth && bitWidth <= 8 && old(remBytes(in)) >= 1 ==> err == nil && remBytes(in) == old(remBytes(in)) - 1
 //@ func readIntLittleEndianOnOneByte
 //@   requires dyn(in) == typeid("*bytes.Reader") && payload(in) != 0
 //@   modifies obj(in), rd
 //@   ensures[C10] err == nil ==> (rfault ==> old(rfault))
+//@   ensures[C04,C07] old(remBytes(in)) >= 1 ==> err == nil && remBytes(in) == old(remBytes(in)) - 1
 //@ func readIntLittleEndianOnTwoBytes
 //@   requires dyn(in) == typeid("*bytes.Reader") && payload(in) != 0
 //@   modifies obj(in), rd
